@@ -49,7 +49,7 @@ def run(mid, prop, diff, props):
         ov = ','.join('/repo/%s=%s' % (f, os.path.join(tmp, f)) for f in files)
         res = {}
         for p in props:
-            r = subprocess.run(['/verif/bin/qedlint', '-prop', p, '-noevidence', '-overlay', ov], capture_output=True, text=True)
+            r = subprocess.run([os.environ.get('QEDLINT','/verif/bin/qedlint'), '-prop', p, '-noevidence', '-overlay', ov], capture_output=True, text=True)
             fired = sorted(set(l.split()[1] for l in r.stdout.splitlines() if l.startswith('FAIL')))
             if r.returncode == 2:
                 res[p] = 'CHECKER-ERROR ' + ' '.join(l for l in r.stdout.splitlines() if 'CHECKER-ERROR' in l)[:200]
